@@ -3,7 +3,7 @@
    accessors (DESIGN Appendix A.1/A.2).  Proof-free; strings are code-point lists.
    The IPv6-literal check (ipaddress.ip_address) is an oracle argument. *)
 From Coq Require Import List NArith Bool.
-From NV Require Import Prelude.Str Prelude.Res.
+From NV Require Import Prelude.Str Prelude.Res Prelude.Repr.
 Import ListNotations.
 Open Scope N_scope.
 
@@ -112,7 +112,7 @@ Definition port (netloc : str) : res (option N) :=
   | p => match undec p with
          | Some n => if n <=? 65535 then Ok (Some n)
                      else Err (lit "port") (lit "Port out of range 0-65535")
-         | None => Err (lit "port") (lit "Port could not be cast to integer value")
+         | None => Err (lit "port") (lit "Port could not be cast to integer value as " ++ py_repr p)
          end
   end.
 
